@@ -43,14 +43,15 @@ func Generate(seed uint64, n int, tier, corpusDir string, shard int, out *kit.Ou
 		}
 		out.Emit(c)
 	}
-	// histories over two handles of one caching provider / with failing writes (findings C07-HANDLES, C07-WRITEERR)
+	// histories over two handles of one caching provider, with failing writes, or both (findings C07-HANDLES and
+	// C07-WRITEERR, repaired)
 	nX := n / 6
 	for i := 0; i < nX; i++ {
 		backend := "mem"
 		if i%4 == 3 {
 			backend = "bbolt"
 		}
-		c, err := runSeqX(xHistory(r.Fork(), backend, i%2 == 0))
+		c, err := runSeqX(xHistory(r.Fork(), backend, i%3))
 		if err != nil {
 			return err
 		}
